@@ -119,12 +119,23 @@ fn call(entry: &str, input: &[u8], w: &World) {
         let _ = e.set_method_name(text);
         let _ = e.set_method_id(text);
       }
-      let _ = text.parse::<CoreDID>();
-      let _ = serde_json::from_value::<CoreDID>(json!(text));
+      // every way in (parse, FromStr, TryFrom, serde) is followed by the accessors: an entry point that skips the validating
+      // constructor shows in what is applied to the accepted value
+      if let Ok(d) = text.parse::<CoreDID>() {
+        accessors_did(&d);
+      }
+      if let Ok(d) = serde_json::from_value::<CoreDID>(json!(text)) {
+        accessors_did(&d);
+      }
       if let Ok(u) = DIDUrl::parse(text) {
         accessors_url(&u);
       }
-      let _ = serde_json::from_value::<DIDUrl>(json!(text));
+      if let Ok(u) = serde_json::from_value::<DIDUrl>(json!(text)) {
+        accessors_url(&u);
+      }
+      if let Ok(u) = text.parse::<DIDUrl>() {
+        accessors_url(&u);
+      }
       if let Ok(mut base) = DIDUrl::parse("did:example:base/p?q=1#f") {
         let _ = base.join(text).map(|u| accessors_url(&u));
         let _ = base.set_path(Some(text));
@@ -136,8 +147,22 @@ fn call(entry: &str, input: &[u8], w: &World) {
         let _ = (i.network_str().len(), i.tag_str().len(), i.is_placeholder(), i.to_string(), String::from(i.clone()));
         accessors_did(i.as_ref());
       }
-      let _ = serde_json::from_value::<IotaDID>(json!(text));
-      let _ = CoreDID::parse(text).ok().map(IotaDID::try_from_core);
+      let iota_acc = |i: &IotaDID| {
+        let _ = (i.network_str().len(), i.tag_str().len(), i.is_placeholder(), i.to_string(), String::from(i.clone()));
+        accessors_did(i.as_ref());
+      };
+      if let Ok(i) = serde_json::from_value::<IotaDID>(json!(text)) {
+        iota_acc(&i);
+      }
+      if let Some(Ok(i)) = CoreDID::parse(text).ok().map(IotaDID::try_from_core) {
+        iota_acc(&i);
+      }
+      if let Ok(i) = text.parse::<IotaDID>() {
+        iota_acc(&i);
+      }
+      if let Ok(i) = IotaDID::try_from(text) {
+        iota_acc(&i);
+      }
       if let Ok(n) = NetworkName::try_from(text.to_string()) {
         let d = IotaDID::new(&[7u8; 32], &n);
         let _ = (d.network_str().len(), IotaDID::placeholder(&n).to_string());
@@ -145,12 +170,27 @@ fn call(entry: &str, input: &[u8], w: &World) {
       if let Ok(n) = serde_json::from_value::<NetworkName>(json!(text)) {
         let _ = IotaDID::new(&[7u8; 32], &n);
       }
-      if let Ok(j) = DIDJwk::parse(text) {
+      let jwk_acc = |j: DIDJwk| {
         let _ = j.jwk().thumbprint_sha256_b64();
+        let _ = (j.to_string(), format!("{j:?}"), serde_json::to_string(&j));
         let _ = CoreDocument::expand_did_jwk(j.clone()).map(|d| accessors_doc(&d, &key));
         let _ = VerificationMethod::try_from(j);
+      };
+      if let Ok(j) = DIDJwk::parse(text) {
+        jwk_acc(j);
       }
-      let _ = DIDJwk::try_from(text);
+      if let Ok(j) = DIDJwk::try_from(text) {
+        jwk_acc(j);
+      }
+      if let Ok(j) = text.parse::<DIDJwk>() {
+        jwk_acc(j);
+      }
+      if let Ok(j) = serde_json::from_value::<DIDJwk>(json!(text)) {
+        jwk_acc(j);
+      }
+      if let Some(Ok(j)) = CoreDID::parse(text).ok().map(DIDJwk::try_from) {
+        jwk_acc(j);
+      }
       // resolver with arbitrary DID strings
       if let Ok(d) = CoreDID::parse(text) {
         let mut r: identity_resolver::Resolver<CoreDocument> = identity_resolver::Resolver::new();
